@@ -3,6 +3,7 @@ package main
 import (
 	"fmt"
 	"math/rand"
+	"os"
 	"sort"
 	"strings"
 
@@ -534,7 +535,12 @@ func malformed(c *Config, n int) {
 
 func generate(c *Config) {
 	rng := c.Rng
+	if os.Getenv("C20_ONLY") == "scale" { // development aid: the scale streams alone
+		scale(c)
+		return
+	}
 	pairs(c)
+	scale(c)
 	for i := c.Count(2500, 10000); i > 0; i-- {
 		k := 2 + rng.Intn(7)
 		parents := randomParents(rng, k, true, false)
